@@ -138,6 +138,8 @@ def mo_cases():
             "closed": [2.0 if i < (norb + 1) // 2 else 0.0 for i in range(norb)],
             "open": [2.0, 1.0, 1.0, 0.0][:norb],
             "frac": [1.75, 1.25, 0.5, 0.125][:norb],
+            "near-integer": [2.0, 1.0 + 1e-10, 1.0 - 1e-10, 0.0][:norb],  # natural occupations within rounding noise of integers
+            "tiny-frac": [2.0 - 2.0**-40, 1.0, 2.0**-40, 0.0][:norb],
             "none": None,
         }
         for oname, occ in occs.items():
@@ -159,7 +161,8 @@ def mo_worker(chunk, seed, tier):
     part = Part(seed, tier)
     for norb, oname, am, missing in chunk:
         part.count()
-        occ = {"closed": [2.0 if i < (norb + 1) // 2 else 0.0 for i in range(norb)], "open": [2.0, 1.0, 1.0, 0.0][:norb], "frac": [1.75, 1.25, 0.5, 0.125][:norb], "none": None}[oname]
+        occ = {"closed": [2.0 if i < (norb + 1) // 2 else 0.0 for i in range(norb)], "open": [2.0, 1.0, 1.0, 0.0][:norb], "frac": [1.75, 1.25, 0.5, 0.125][:norb], "near-integer": [2.0, 1.0 + 1e-10, 1.0 - 1e-10, 0.0][:norb],
+               "tiny-frac": [2.0 - 2.0**-40, 1.0, 2.0**-40, 0.0][:norb], "none": None}[oname]
         amv = {"none": None, "pos": [0.0, 1.0, 0.5, 0.125][:norb], "neg": [-0.25, -1.0, 0.5, 0.0][:norb], "zero": [0.0] * norb}[am]
         nb = 3
         kw = dict(occs=occ, coeffs=common.int_matrix(nb, norb, seed), energies=np.arange(norb) * 0.5 - 1, irreps=np.array([f"a{i}" for i in range(norb)]), occs_aminusb=amv)
@@ -281,7 +284,7 @@ def run(ctx):
     ctx.exhaustive = True
     ctx.rule = (
         f"all shell sequences of length <= {maxlen} over {len(names)} shell kinds (segmented s..f Cartesian/pure, SP, [0,0,0], [1,2p], [2c,2p,1], 5-contraction s, [0,1,0]) x keep_sp; "
-        "all restricted orbital sets norb 1..4 x occupations {closed, open, fractional, None} x occs_aminusb {None,+,-,0} x missing optional arrays; each x allow_changes for the prepare_* wrappers. "
+        "all restricted orbital sets norb 1..4 x occupations {closed, open, fractional, within 1e-10 of integers, 2^-40 away from integers, None} x occs_aminusb {None,+,-,0} x missing optional arrays; each x allow_changes for the prepare_* wrappers. "
         "Function values are compared with the independent evaluator ref/gto.py at 8 probe points."
     )
 
